@@ -139,6 +139,7 @@ pub fn specified(spec: &Spec, q: u8, _t: u8) -> Option<String> {
             3 => format!("Ok({s})"),
             5 | 6 => "None".to_string(),
             9 => "false".to_string(),
+            11 | 12 => String::new(),
             _ => return None,
         })
     };
@@ -155,6 +156,7 @@ pub fn specified(spec: &Spec, q: u8, _t: u8) -> Option<String> {
             2 => Some("None".to_string()),
             5 | 6 => Some("None".to_string()),
             9 => Some("true".to_string()),
+            11 | 12 => Some(String::new()),
             _ => None,
         },
         Spec::Fixed(s) => match q % N_QUERIES {
